@@ -354,15 +354,19 @@ class ShimPool:
     """Executor whose submit() starts a controlled thread. start_immediately=False models a saturated pool: the work item
     only starts when the scheduler picks the new thread, and cancel() succeeds until then."""
 
-    def __init__(self):
+    def __init__(self, saturated=False):
         self.futures = []
         self.n = 0
+        self.saturated = saturated  # every worker busy for good: a submitted work item stays queued (cancellable) forever
 
     def submit(self, fn, *args, **kwargs):
         s = current()
         f = ShimFuture()
         self.futures.append(f)
         self.n += 1
+        if self.saturated:
+            s.point("submit")
+            return f
 
         def run():
             if f.state == "cancelled":
